@@ -147,6 +147,10 @@ func (vc *VC) generate() (err error) {
 	if vc.rets == 0 {
 		return fmt.Errorf("%s: no return reached", vc.key)
 	}
+	// vacuity: some return must be reachable under the precondition and all assumptions made
+	vc.curBlock = nil
+	vc.curReach = or(vc.retReach...)
+	vc.oblige("cover", "some-return-reachable", "false", fn.Pos()).Expect = "fail"
 	return nil
 }
 
@@ -431,12 +435,11 @@ func (vc *VC) loopHead(li *loopInfo) {
 			continue
 		}
 		vc.cur.comps[c] = vc.fresh(compPrefix(c), s)
+		vc.assumeCompValid(vc.cur.comps[c], s, false)
 	}
 	// written loop-modifies clauses restrict the havoc (frame of the loop): everything allocated
 	// before the loop and not listed is unchanged
-	if len(li.mods) > 0 {
-		vc.applyLoopFrame(li, pre, comps)
-	}
+	vc.applyLoopFrame(li, pre, comps)
 	li.headSt = vc.cur.clone()
 	// 3. assume invariants
 	ctx = vc.ctx(vc.cur, vc.entry)
@@ -1672,7 +1675,7 @@ func (vc *VC) ret(x *ssa.Return) {
 	}
 	ctx := vc.ctx(vc.cur, vc.entry)
 	ctx.bindResults(rs)
-	vc.oblige("cover", fmt.Sprintf("return-reachable@%d", k), "false", x.Pos()).Expect = "fail"
+	vc.retReach = append(vc.retReach, vc.curReach)
 	for i, c := range vc.decl.Clauses {
 		if c.Kind == "ensures" {
 			vc.oblige("ensures", fmt.Sprintf("%s@ret%d", labelOr(c.Label, i), k), ctx.formula(c.E), x.Pos())
@@ -1707,7 +1710,7 @@ func (vc *VC) frame(pos token.Pos, k int) {
 	sort.Strings(names)
 	entryNext := vc.compEntry(compNext, sInt)
 	for _, c := range names {
-		if c == compNext || strings.HasPrefix(c, "I.") || whole[c] {
+		if c == compNext || strings.HasPrefix(c, "I.") || strings.HasPrefix(c, "R.") || whole[c] {
 			continue
 		}
 		cur := vc.cur.comps[c]
